@@ -19,7 +19,7 @@ EXPLANATION = (
     "earlier, still unwired columns; R13.4 the late repair of multi-candidate columns collects every matching candidate - no first-match "
     "selection (break / next() / accumulator tested inside the loop) and only tables with a known schema are asked; R13.5 the provider's "
     "public look-up is a function of the session store and the provider's own source only (no memo across calls or instances). "
-    "Does not decide: that expansion yields exactly the table's columns, nor the attribution of unqualified columns as values."
+    "R13.6 session entries are dropped on every exit of a run (= R12.1), so a table unknown to the provider is not answered from a previous run. Does not decide: that expansion yields exactly the table's columns, nor the attribution of unqualified columns as values."
 )
 RULE_TEXT = "one obligation per provider look-up, per table-level sink and per loop of the late repair; anchors are trivial"
 
@@ -274,6 +274,13 @@ def rules(ctx: Ctx) -> None:
              and any(n.func.attr in k.methods for k in prog.subclasses(P))}
     ctx.ob("R13.5", "lookup-reads-session-then-source", reads_store and bool(hooks), lookup.loc(),
            "get_table_columns answers from the session store first, else from the provider's own source", trivial=True)
+
+
+    # ---- R13.6 session entries never outlive the run that made them (= R12.1): a table the provider does not know must get the same
+    # answer as without metadata, also when an earlier, failed run on the same provider created a table of that name
+    from .common import import_rules
+
+    import_rules(ctx, "C12", {"R12.1": "R13.6"})
 
 
 def _column_named(call: ast.Call) -> bool:
